@@ -1384,7 +1384,10 @@ class Simplifier:
                 ),
                 exp.and_(
                     this.is_(exp.null()),
-                    type(expression)(this=arg.copy(), expression=other.copy()),
+                    # keep the operand order of the original comparison (matters for <, <=, >, >=)
+                    type(expression)(this=arg.copy(), expression=other.copy())
+                    if coalesce is expression.left
+                    else type(expression)(this=other.copy(), expression=arg.copy()),
                     copy=False,
                 ),
                 copy=False,
